@@ -60,4 +60,37 @@ CHECKS = {
          'liveness, swapped roles, Moore<->Mealy, strict<->non-strict. '
          'Game-semantic reading not mechanised (partial).'),
    note='Trusted: as C01. No axioms.'),
+ 'C02': dict(
+   design_ref='§6 C02',
+   technique='Coq proofs on a hand model of make_streett_transducer (over translated _controllable_action) + exhaustive truth-table correspondence + closed-loop search',
+   text=('Hand-written Gallina model of make_streett_transducer built on the '
+         'translated _controllable_action/_make_init/solver; proved for '
+         'arbitrary iterates, all modes: every allowed step satisfies the '
+         'specified component action under the mode causality rule; Moore '
+         'implementations do not depend on next environment values; the goal '
+         'counter stays in range when the environment keeps its action; '
+         'initial states via C03. Closure, non-blocking and liveness are NOT '
+         'proved (partial): they are searched on the real implementation by '
+         'explicit closed-loop analysis (reachability, blocking, fair cycles) '
+         'on every run. The model is tied by comparing the complete truth '
+         'tables of action[impl]/init[impl] with the real construction.'),
+   note=('Trusted: Coq kernel+vm_compute; hand model tied by sampled '
+         'correspondence (tables are exhaustive per game); translator for '
+         'the generated parts; dd by meaning. Liveness/non-blocking only '
+         'searched, not proved. No axioms.')),
+ 'C05': dict(
+   design_ref='§6 C05',
+   technique='Coq proofs on a hand model of make_rabin_transducer; two machine-checked refutation witnesses (known findings F3, F12); correspondence + closed-loop search',
+   text=('Hand-written Gallina model of make_rabin_transducer over the '
+         'translated _controllable_action/step/_make_init/solver; proved for '
+         'arbitrary iterates: every allowed step satisfies the specified '
+         'component action under the mode causality rule. Absence of '
+         'blocking is REFUTED on the faithful model by two kernel-checked '
+         'witnesses (C05_refuted_dead_end = F3, C05_refuted_stale_hold = '
+         'F12), reproduced on the real code and listed as known findings; '
+         'every other blocking state, refinement/range failure or '
+         'liveness-violating fair cycle found by the closed-loop search on '
+         'the real implementation is reported as a violation.'),
+   note=('Trusted: as C02. Known findings keyed rabin_blocks_env_deadend_plus_one '
+         'and rabin_blocks_stale_hold in KNOWN_FINDINGS.txt. No axioms.')),
 }
